@@ -20,6 +20,10 @@ Casts == {
   [name |-> "single", seller |-> "multi1", buyer |-> "multi1", approvers |-> <<"multi1">>, approvers2 |-> <<"multi1", "appr2">>,
    executors |-> <<"multi1">>, executors2 |-> <<"exec2">>, askfee |-> "multi1", bidfee |-> "multi1",
    senders |-> {"multi1", "appr2", "exec2", "stranger"}],
+  \* the seller collects the ask fee and the buyer the bid fee, while approver and executor are other accounts
+  [name |-> "feeowners", seller |-> "multi1", buyer |-> "multi2", approvers |-> <<"appr1">>, approvers2 |-> <<"appr1", "appr2">>,
+   executors |-> <<"exec1">>, executors2 |-> <<"exec1", "exec2">>, askfee |-> "multi1", bidfee |-> "multi2",
+   senders |-> {"multi1", "multi2", "appr1", "exec1", "stranger"}],
   \* no approver configured at all (instantiation allows it): nobody may approve
   [name |-> "noappr", seller |-> "seller1", buyer |-> "buyer1", approvers |-> <<>>, approvers2 |-> <<"appr2">>,
    executors |-> <<"exec1">>, executors2 |-> <<"exec1", "exec2">>, askfee |-> "askfee1", bidfee |-> "bidfee1",
